@@ -2,6 +2,7 @@
 import sys, json, math
 import numpy as np
 import casadi as ca
+from harness import cas as _cas
 from harness.core import Run, run_tlc, parse_dump, main_wrap, MachineryError
 from harness.lie import rm_to_np, FnCache, rot
 from harness import explog as E
@@ -13,7 +14,9 @@ OPS = {"exp_so3", "exp_se3_gen", "exp_se23_gen", "exp_se3_screw", "exp_se23_scre
 
 def call(f, *args):
     r = f(*args)
-    return [np.array(x) for x in (r if isinstance(r, (list, tuple)) else [r])]
+    out = [np.array(x) for x in (r if isinstance(r, (list, tuple)) else [r])]
+    _cas.direct_probe(f, args, out)
+    return out
 
 
 def replay(run, cache, tv):
